@@ -708,3 +708,84 @@ def partition_summary(partition, numbered=None) -> dict:
             "overall": list(partition.overall_output_names)}
 
 # }}}
+
+
+# {{{ generated code for the parts (pytato -> loopy -> C -> gcc), sampled
+
+class CompiledPrograms:
+    """pid -> callable like :class:`PartPrograms`, but every part is sent
+    through ``pt.generate_loopy`` (C target), gcc, and executed natively:
+    the equivalent of ``generate_code_for_partition``."""
+
+    def __init__(self, rank: int, partition):
+        import pytato as pt
+
+        from pvf.cexec import generate_and_compile
+        self.rank = rank
+        self.partition = partition
+        self.knls = {}
+        for pid, part in sorted(partition.parts.items(), key=lambda kv: repr(
+                kv[0])):
+            d = pt.make_dict_of_named_arrays(
+                {nm: partition.name_to_output[nm]
+                 for nm in sorted(part.output_names)})
+            self.knls[pid] = generate_and_compile(d)
+
+    def __getitem__(self, pid):
+        knl = self.knls[pid]
+
+        def prg(queue, allocator=None, **inputs):
+            bound = getattr(knl.bp, "bound_arguments", {}) or {}
+            res = knl(**{k: np.asarray(v) for k, v in inputs.items()
+                         if k in knl.kernel.arg_dict and k not in bound})
+            return None, dict(res)
+        return prg
+
+
+def execute_compiled(builds, partitions, prgs, chooser=None, *, por=True):
+    MPI = install()
+    import pytato as pt
+    ctxs = [TracedContext({k: v.copy() for k, v in b.inputs.items()})
+            for b in builds]
+
+    def rank_fn(comm):
+        r = comm.rank
+        return pt.execute_distributed_partition(
+            partitions[r], prgs[r], None, comm, input_args=ctxs[r])
+
+    sim = MPI.run_world(len(builds), rank_fn, chooser, por=por)
+    return ExecOutcome(sim, list(sim.results), ctxs, prgs)
+
+
+def local_case(case, vals) -> dict:
+    """The same computations without communication: every receive becomes an
+    input carrying its reference value, every holder its pass-through operand;
+    payloads become extra outputs.  (Baseline for what the code generator can
+    do with these expressions at all.)"""
+    import copy
+
+    from pvf import distgen
+    from pvf.minimize import _value_to_input
+    out = {"nranks": case["nranks"], "pattern": case.get("pattern"),
+           "ranks": []}
+    for r, s in enumerate(case["ranks"]):
+        s = copy.deepcopy(s)
+        extra = []
+        for i, n in enumerate(list(s["nodes"])):
+            if n["op"] == "recv":
+                repl = _value_to_input(vals[r][i], f"rcv{i}")
+                if repl is None:
+                    raise ModelError("receive value not representable")
+                s["nodes"][i] = repl
+        for i in range(len(s["nodes"])):
+            n = s["nodes"][i]
+            if n["op"] == "sendhold":
+                extra.append(n["args"][0][1])
+                s = distgen._redirect(s, i, n["args"][1][1])
+        for k, i in enumerate(extra):
+            if all(i != q for _, q in s["outputs"]):
+                s["outputs"].append([f"payload{k}", i])
+        out["ranks"].append(s)
+    return distgen.gc_case(out)
+
+# }}}
